@@ -8,9 +8,13 @@
    Full strength: the C3 theorems (no bound on the graph), the invariants for
    every history.  `_partial` theorems and what they leave out:
    - they speak of states in which pyecore has not replaced the linearisation
-     of its metaclass (flag st = false) and in which Python has a linearisation
-     for the class at hand (mro st c = Some l); histories that install the
-     replacement are covered by the correspondence only;
+     of its metaclass (flag st = false) and in which the linearisations that
+     Python caches are those of the current bases (`consistent st`: CPython
+     re-linearises a class and its subclasses at every __bases__ assignment;
+     the model does the same, computes this premise in every explored state
+     -- `consistentb`, part of what the correspondence compares -- but its
+     preservation by mro_hierarchy's depth-first traversal is not proved);
+     histories that install the replacement are covered by the correspondence only;
    - histories are restricted by `side_condition` (a bulk clear() that stops
      half-way, a supertype edit for which even the replacement fails) and, for
      the "declared => visible" direction, `wf_op` (one declaration per name and
@@ -20,8 +24,7 @@
      held` is true, see C12_removed_feature_stays_readable_refuted (the known
      finding F-C12-stale-slot). *)
 From Coq Require Import String Ascii ZArith Bool List.
-From PyecoreV Require Import Lib.PyBase Lib.PyList Model.C3 Model.Operations Model.MetaEdit
-  Proofs.C3Proofs Proofs.OperationsProofs Proofs.MetaEditProofs.
+From PyecoreV Require Import Lib.PyBase Lib.PyList Model.C3 Model.Operations Model.MetaEdit Proofs.C3Proofs Proofs.OperationsProofs Proofs.MetaEditProofs.
 Import ListNotations.
 Open Scope Z_scope.
 
@@ -90,7 +93,7 @@ Print Assumptions C12_every_history_sound.
    a slot the instance itself still holds *)
 Theorem C12_visible_is_declared_partial :
   forall st i n x,
-    Inv st -> flag st = false -> geti st i = Some x -> visible st i n ->
+    Inv st -> consistent st -> flag st = false -> geti st i = Some x -> visible st i n ->
     (exists d, in_closure st (i_cls x) d /\
        ((exists f, declares_feat st d n f) \/ (exists s, declares_op st d n s) \/
         (exists b, ns_get n (ns_of st d) = Some (EBeh b))))
@@ -101,7 +104,7 @@ Print Assumptions C12_visible_is_declared_partial.
 (* everything declared is visible, on instances created before or after the edit *)
 Theorem C12_declared_is_visible_partial :
   forall st i x l d n,
-    Inv st -> Full st -> flag st = false -> geti st i = Some x -> mro st (i_cls x) = Some l ->
+    Inv st -> Full st -> consistent st -> flag st = false -> geti st i = Some x -> mro st (i_cls x) = Some l ->
     in_closure st (i_cls x) d ->
     ((exists f, declares_feat st d n f) \/ (exists s, declares_op st d n s)) ->
     visible st i n.
@@ -111,7 +114,7 @@ Print Assumptions C12_declared_is_visible_partial.
 (* exactly the declared names, for every instance that holds no slot of the name *)
 Theorem C12_visible_iff_declared_partial :
   forall st i x l n,
-    Inv st -> Full st -> flag st = false -> geti st i = Some x -> mro st (i_cls x) = Some l ->
+    Inv st -> Full st -> consistent st -> flag st = false -> geti st i = Some x -> mro st (i_cls x) = Some l ->
     ns_get n (i_dict x) = None ->
     (forall d b, ns_get n (ns_of st d) = Some (EBeh b) -> exists s, declares_op st d n s) ->
     (visible st i n <->
@@ -123,7 +126,7 @@ Print Assumptions C12_visible_iff_declared_partial.
 (* with their defaults and multiplicity *)
 Theorem C12_declared_feature_is_the_one_found_partial :
   forall st c l d n f,
-    Inv st -> Full st -> flag st = false -> mro st c = Some l -> in_closure st c d ->
+    Inv st -> Full st -> consistent st -> flag st = false -> mro st c = Some l -> in_closure st c d ->
     declares_feat st d n f ->
     (forall z, In z l -> z <> d -> ns_get n (ns_of st z) = None) ->
     class_lookup st c n = Some (EFeat f).
@@ -144,7 +147,7 @@ Print Assumptions C12_untouched_instance_reads_default.
    transitive supertypes *)
 Theorem C12_isinstance_is_closure_partial :
   forall st i c x l,
-    Inv st -> flag st = false -> geti st i = Some x -> mro st (i_cls x) = Some l -> c <> 0 ->
+    Inv st -> consistent st -> flag st = false -> geti st i = Some x -> mro st (i_cls x) = Some l -> c <> 0 ->
     (isinstance_m st i c = true <-> in_closure st (i_cls x) c).
 Proof. exact isinstance_closure. Qed.
 Print Assumptions C12_isinstance_is_closure_partial.
@@ -164,7 +167,7 @@ Example C12_witness :
   snd (step (Get 0 X) st) = ROk [1; 5] /\
   map (isinstance_m st 0) [1; 2; 3; 4] = [true; true; true; true] /\
   snd (step (Get 0 X) (next st (RemoveFeat 1 X))) = RErr XAttr /\
-  flag st = false /\ wf_history h (empty_state false).
+  flag st = false /\ consistentb st = true /\ wf_history h (empty_state false).
 Proof. vm_compute. repeat split; try reflexivity; try discriminate; try (intros ? ?; discriminate);
        intros k E; inversion E; subst; simpl; tauto. Qed.
 
@@ -180,6 +183,19 @@ Example C12_replacement_witness :
                       (empty_state false) in
   flag st = true /\ mro st 5 = Some [5; 3; 4; 1; 2; 0].
 Proof. vm_compute. split; reflexivity. Qed.
+
+(* CPython re-linearises the subclasses of an edited class one by one against
+   partly stale caches: re-appending A to C's supertypes (bases (B, A) -> (A, B))
+   fails although every class has a linearisation over the new bases, and
+   pyecore ends up replacing the linearisation process-wide *)
+Example C12_stale_cache_witness :
+  let h := [NewClass []; NewClass [1]; NewClass [1; 2]; NewClass [2; 3]; NewClass [4];
+            AddSuper 5 3; RemoveSuper 2 1; AddSuper 4 2] in
+  let st := fold_left next h (empty_state false) in
+  flag st = false /\ consistentb st = true /\
+  map (mro_spec (set_bases st 3 [1; 2])) [3; 4; 5] = [Some [3; 1; 2; 0]; Some [4; 3; 1; 2; 0]; Some [5; 4; 3; 1; 2; 0]] /\
+  flag (next st (AddSuper 3 1)) = true.
+Proof. vm_compute. repeat split; reflexivity. Qed.
 
 (* known finding F-C12-stale-slot: an instance that has read x keeps showing it
    after the feature is removed (the bare holder comes back), and keeps its
